@@ -47,6 +47,39 @@ theorem frameMax_spec (row : List Rat) (hne : row ≠ []) :
     have := maxGo_spec x 0 1 xs [x] rfl (by simp) (by intro y hy; simp at hy; subst hy; exact Rat.le_refl)
     simpa [frameMax] using this
 
+/-- Lowering entries of a frame while one maximal entry keeps its value does not change the
+frame maximum; when the maximum is strict, the index is kept too. -/
+theorem frameMax_lower (row row' : List Rat) (hne : row ≠ []) (hlen : row'.length = row.length)
+    (hle : ∀ (i : Nat) x x', row[i]? = some x → row'[i]? = some x' → x' ≤ x)
+    (hkeep : row'[(frameMax row).2]? = some (frameMax row).1) :
+    (frameMax row').1 = (frameMax row).1 ∧
+      ((∀ (i : Nat) x, row[i]? = some x → i ≠ (frameMax row).2 → x < (frameMax row).1) →
+        frameMax row' = frameMax row) := by
+  have hne' : row' ≠ [] := by
+    intro h; rw [h] at hlen; exact hne (List.length_eq_zero_iff.1 hlen.symm)
+  obtain ⟨h1, h2⟩ := frameMax_spec row hne
+  obtain ⟨h1', h2'⟩ := frameMax_spec row' hne'
+  -- m ≤ m'
+  have hmm' : (frameMax row).1 ≤ (frameMax row').1 := h2' _ (List.mem_of_getElem? hkeep)
+  -- m' ≤ m
+  have hlt' : (frameMax row').2 < row.length := by
+    rw [← hlen]
+    exact (List.getElem?_eq_some_iff.1 h1').1
+  have hx : row[(frameMax row').2]? = some row[(frameMax row').2] := List.getElem?_eq_getElem hlt'
+  have hm'm : (frameMax row').1 ≤ (frameMax row).1 :=
+    Rat.le_trans (hle _ _ _ hx h1') (h2 _ (List.getElem_mem hlt'))
+  have hval : (frameMax row').1 = (frameMax row).1 := Rat.le_antisymm hm'm hmm'
+  refine ⟨hval, ?_⟩
+  intro hstrict
+  have hidx : (frameMax row').2 = (frameMax row).2 := by
+    apply Decidable.byContradiction
+    intro hneq
+    have := hstrict _ _ hx hneq
+    have h3 : (frameMax row').1 ≤ row[(frameMax row').2] := hle _ _ _ hx h1'
+    rw [hval] at h3
+    exact absurd h3 (Rat.not_le.2 this)
+  exact Prod.ext hval hidx
+
 /-! ### the keep mask removes repeats and blanks -/
 
 /-- The kept cells of one row: `row.masked_select(keep)`. -/
